@@ -48,6 +48,13 @@ impl Engine for TokenEngine {
         for _ in 0..rng.range(1, 4) {
             ips.push(if rng.chance(1, 3) { rng.bytes(16) } else { rng.bytes(4) });
         }
+        // IPv6 addresses that differ only in how they embed the same IPv4 bytes: different hosts
+        if rng.chance(1, 2) {
+            let low = [rng.byte(), rng.byte(), rng.byte(), rng.byte()];
+            ips.push(structured_v6(0, low));
+            ips.push(structured_v6(1, low));
+            if rng.chance(1, 2) { ips.push(low.to_vec()); }
+        }
         // two addresses differing in one bit
         let mut near = ips[0].clone();
         let l = near.len();
